@@ -314,6 +314,8 @@ class _FakeSocket:
         self._tx = bytearray()
         self._rx = bytearray()
         self._dead = False
+        self._timeout = None
+        self._rx_delay = 0.0      # virtual seconds until the buffered answer "arrives"
 
     def connect(self, addr):
         if self.bus.connect_fail > 0:
@@ -325,7 +327,7 @@ class _FakeSocket:
         self.bus.log("open", h=self.handle, addr=addr)
 
     def settimeout(self, t):
-        pass
+        self._timeout = t
 
     def send(self, b):
         if self._dead:
@@ -349,12 +351,24 @@ class _FakeSocket:
                 self._dead = True
             else:
                 d, sw = res
+                if not self._rx:
+                    # an exchange hook may make this answer late (virtual time)
+                    self._rx_delay = float(getattr(self.bus, "next_answer_delay", 0) or 0)
+                    self.bus.next_answer_delay = 0
                 self._rx += struct.pack(">I", len(d)) + bytes(d) + struct.pack(">H", sw)
         return len(b)
 
     sendall = send
 
     def recv(self, n):
+        if self._rx_delay > 0:
+            # a byte stream: an answer that arrives after the socket's time-out is still
+            # delivered - to whoever reads next
+            if self._timeout is not None and self._rx_delay > self._timeout:
+                self._rx_delay -= self._timeout
+                self.bus.log("recv_timeout", h=self.handle)
+                raise TimeoutError("timed out")
+            self._rx_delay = 0.0
         r = bytes(self._rx[:n])
         del self._rx[:n]
         return r
